@@ -68,7 +68,8 @@ class _EpydocLinker(DocstringLinker):
         """
         
         self._init_obj = obj
-        self._page_object: Optional['model.Documentable'] = obj.page_object
+        self._page_object: Optional['model.Documentable'] = None
+        self._context_switched = False
     
     @property
     def obj(self) -> 'model.Documentable':
@@ -83,7 +84,9 @@ class _EpydocLinker(DocstringLinker):
         URL of the page used to compute the relative links from. 
         Can be an empty string to always generate full urls. 
         """
-        pageob = self._page_object
+        # The page of the initial object is looked up when needed: the object
+        # might be moved (re-exported) after the linker has been created.
+        pageob = self._page_object if self._context_switched else self._init_obj.page_object
         if pageob is not None:
             return pageob.url
         return ''
@@ -92,14 +95,17 @@ class _EpydocLinker(DocstringLinker):
     def switch_context(self, ob:Optional['model.Documentable']) -> Iterator[None]:
         
         old_page_object = self._page_object
+        old_context_switched = self._context_switched
         old_reporting_object = self.reporting_obj
 
         self._page_object = None if ob is None else ob.page_object
+        self._context_switched = True
         self.reporting_obj = ob
         
         yield
         
         self._page_object = old_page_object
+        self._context_switched = old_context_switched
         self.reporting_obj = old_reporting_object
 
     def look_for_name(self,
